@@ -9,7 +9,8 @@ SYM = ["what the wrapped channel's stream does at each of up to 3 polls: yields 
        "whether the wrapped channel's sink is Ready / Pending / failing at each of up to 3 readiness polls"]
 def m(limit, start):
     return {"desc": "one poll of MaxRequests with limit %d from a state with %d requests in flight: a request reaches the application only while fewer than the limit are in flight; every refused request gets exactly one WouldBlock error response with its own id, written only to a ready sink, and is not handed over; nothing is refused below the limit" % (limit, start),
-            "symbolic": SYM, "bounds": "limit=%d, %d in flight at entry (concrete per harness), <=3 inner stream polls and <=3 readiness polls per poll, unwind 5" % (limit, start), "covers": 1}
+            "symbolic": SYM, "bounds": "limit=%d, %d in flight at entry (concrete per harness), <=3 inner stream polls and <=3 readiness polls per poll, unwind 5" % (limit, start), "covers": 5,
+            "min_covers_sat": 2}
 METAS = {"c12_limit0": m(0, 0), "c12_limit1_idle": m(1, 0), "c12_limit1_busy": m(1, 1),
          "c12_limit2_one_in_flight": m(2, 1), "c12_limit2_full": m(2, 2), "c12_limit2_over": m(2, 3)}
 STATIC = {
@@ -22,9 +23,12 @@ STATIC = {
     },
     "assumptions": [
         "in-crate harness appended as a child module of `server` in a scratch COPY of tarpc (cfg(kani))",
+        "stub: alloc::sync::Arc::drop_slow -> no-op (the last Arc leaks its pointee): dropping a refused TrackedRequest drops a tracing::Span whose niche-encoded Option<Inner> otherwise sends CBMC into Arc<dyn Subscriber> drop glue",
+        "tokio::sync::mpsc behind RequestCancellation replaced under cfg(kani) by the waker-less array model (overlay/verif_env.rs): the real sender's drop wakes through a raw vtable pointer",
+        "stubs: tracing::span::Span::{do_enter, do_exit} -> no-op (logging environment)",
         "harness channel M = model of the Channel contract: in-flight count rises when a request is yielded, falls when a response is written",
         "tracing/log compiled out (max_level_off added to the scratch copy's Cargo.toml); stubs: thread_cleanup, Instant::now, fmt::format",
-        "values that own tokio mpsc endpoints are forgotten, not dropped, in the harness (the limiter's own drop of a refused TrackedRequest is real)",
+        "transport error type of the harness channel is a unit struct (io::Error's recursive dyn-Error drop glue is avoided)",
     ],
 }
 
